@@ -92,7 +92,14 @@ class ToyBinary:
         xa = np.exp(0.5 * (a + b))
         xa = np.where(gb == 0, xe, xa)
         xa = np.where(valid, xa, -1.0)
-        xbeta = np.where(valid, xb, -1.0)
+        kb = p.get("kbeta", 0.0)
+        if kb:
+            # optional size-dependent precipitate composition (capillarity shifts the precipitate side too, as in gamma'):
+            # smooth, monotone in g, below 0.95; the matrix side and the driving force keep the stoichiometric model
+            xbv = xb + (0.95 - xb) * (1.0 - np.exp(-kb * np.maximum(gb, 0) / (R_GAS * Tb)))
+        else:
+            xbv = xb
+        xbeta = np.where(valid, xbv, -1.0)
         return np.squeeze(xa.reshape(shape)), np.squeeze(xbeta.reshape(shape))
 
     def _D(self, T):
